@@ -352,6 +352,7 @@ func (fc *FnCtx) applyContract(fr *Frame, st *State, instr ssa.Instruction, spec
 		res = fc.havocValue(st, "res_"+sanitize(spec.Target), rt)
 	}
 	env.setResults(res)
+	fc.applyEffects(st, pre, spec, env)
 	for _, en := range spec.Ensures {
 		t := fc.evalClauseEnv(st, pre, en, env)
 		fc.assume(st, t)
@@ -367,6 +368,23 @@ func (fc *FnCtx) applyContract(fr *Frame, st *State, instr ssa.Instruction, spec
 		fc.assumptions["history predicate "+pn+" is defined by the exit of "+spec.Target+": "+en.Src] = true
 	}
 	return res
+}
+
+// applyEffects executes the ghost assignments a contract attaches to the function's exit.
+func (fc *FnCtx) applyEffects(st *State, pre *State, spec *FuncSpec, env *specEnv) {
+	for _, ef := range spec.Effects {
+		g, ok := fc.eng.ghosts[ef.Var]
+		if !ok {
+			panic(bindError{fmt.Sprintf("%s:%d: effect on undeclared ghost variable %s", ef.Clause.File, ef.Clause.Line, ef.Var)})
+		}
+		c := ef.Clause
+		ev := &evaluator{fc: fc, st: st, old: pre, env: env, clause: &c}
+		t, _ := ev.evalTerm(ef.Clause.Expr)
+		if t.Sort != specSort(g.Type) {
+			panic(bindError{fmt.Sprintf("%s:%d: effect value has sort %s, ghost %s has %s", ef.Clause.File, ef.Clause.Line, t.Sort, ef.Var, specSort(g.Type))})
+		}
+		st.cells[cellKey{0, ef.Var}] = fc.nameTerm("eff_"+ef.Var, t)
+	}
 }
 
 // havocSet forgets everything in a write set, keeping old references for fresh-only writes.
